@@ -286,4 +286,11 @@ RECIPES = [
      "cbcheck: rank as the inverse permutation, written as a scatter"),
     ("C06", "break", ["C06-R7"], CB, "        i = np.argsort(np.argsort(bseto))\n", "        order = np.argsort(bseto, kind=\"stable\")\n        i = np.empty_like(order)\n        i[np.arange(nb)] = order\n",
      "cbcheck: the scatter that reproduces the sorting permutation itself (finding F17 again)"),
+    # per-DOF reading of the cbconvert diagonals (an index into b that is understood and wrong is a violation, one that is not understood is exit 2)
+    ("C06", "neutral", [], CB, "    C[b[trn]] = 1 / lengthconv\n", "    for j in range(3):\n        C[b[j::6]] = 1 / lengthconv\n", "cbconvert: one strided store per translation DOF"),
+    ("C06", "break", ["C06-R2"], CB, "    rot = trn + 3\n", "    rot = trn - 3\n", "cbconvert: rotation rows three DOF before the translations (the previous grid)"),
+    ("C06", "break", ["C06-R2"], CB, "    trn = ytools.mkpattvec([0, 1, 2], lb, 6).ravel()\n", "    trn = ytools.mkpattvec([0, 1, 2], lb, 7).ravel()\n", "cbconvert: seven DOF per grid"),
+    ("C06", "break", ["C06-R2"], CB, "    C[b[trn]] = 1 / lengthconv\n", "    for j in range(1, 4):\n        C[b[j::6]] = 1 / lengthconv\n", "cbconvert: strided stores on DOF 2-4"),
+    ("C06", "break", ["C06-R3"], CB, "            pv = np.hstack((q, b))\n", "            pv = np.hstack((q, q))\n", "cbreorder: the boundary set lost from the new order"),
+    ("C06", "break", ["C06-R1"], CB, "    if qset.size == 0:\n        accel = a.copy()", "    if bset.size == 0:\n        accel = a.copy()", "cbtf: the all-boundary shortcut tested on the wrong set"),
 ]
